@@ -154,4 +154,6 @@ func (n *Net) Run() bool {
 }
 
 // Describe is used in messages.
-func (m *Msg) Describe() string { return fmt.Sprintf("%s inst=%d %d->%d", m.Kind, m.Inst, m.From, m.To) }
+func (m *Msg) Describe() string {
+	return fmt.Sprintf("%s inst=%d %d->%d", m.Kind, m.Inst, m.From, m.To)
+}
